@@ -28,3 +28,60 @@ package model
 // filter without cmdControl (C05)
 //@ func (*CmdType).ExtractFilter trusted
 //@   modifies nothing
+
+// ---------------------------------------------------------------------------------------
+// use-case registry (C20)
+//@ define named(it, nm) = it.UseCaseName != nil && *it.UseCaseName == nm
+//@ define hasName(info, nm) = exists q int :: 0 <= q && q < len(info.UseCaseSupport) && named(info.UseCaseSupport[q], nm)
+//@ define onAddr(info, a) = info.Address != nil && info.Address.Device != nil && info.Address.Entity != nil && deepEqual(info.Address.Device, a.Device) && deepEqual(info.Address.Entity, a.Entity)
+//@ define ucMatch(info, a, ac, nm) = onAddr(info, a) && (len(ac) == 0 || (info.Actor != nil && *info.Actor == ac)) && (len(nm) == 0 || hasName(info, nm))
+
+//@ func (*UseCaseInformationDataType).useCaseSupportIndex
+//@   requires u != nil
+//@   ensures[C20] found: result1 ==> 0 <= result0 && result0 < len(u.UseCaseSupport) && named(u.UseCaseSupport[result0], useCaseName) && forall j int :: 0 <= j && j < result0 ==> !named(u.UseCaseSupport[j], useCaseName)
+//@   ensures[C20] absent: !result1 ==> result0 == 0 - 1 && forall j int :: 0 <= j && j < len(u.UseCaseSupport) ==> !named(u.UseCaseSupport[j], useCaseName)
+//@   modifies nothing
+//@   loop 0 invariant none-yet: forall j int :: 0 <= j && j < $k ==> !named($s[j], useCaseName)
+
+//@ func (*UseCaseInformationDataType).Add
+//@   requires u != nil
+//@   let S0 = u.UseCaseSupport
+//@   define present = exists q int :: 0 <= q && q < len(S0) && named(S0[q], *useCase.UseCaseName)
+//@   ensures[C20] nameless-noop: useCase.UseCaseName == nil ==> u.UseCaseSupport == S0
+//@   ensures[C20] appended: useCase.UseCaseName != nil && !old(present) ==> len(u.UseCaseSupport) == len(S0) + 1 && u.UseCaseSupport[len(S0)] == useCase && forall j int :: 0 <= j && j < len(S0) ==> u.UseCaseSupport[j] == old(S0[j])
+//@   ensures[C20] overwritten: useCase.UseCaseName != nil && old(present) ==> u.UseCaseSupport == S0 && exists q int :: 0 <= q && q < len(S0) && old(named(S0[q], *useCase.UseCaseName)) && u.UseCaseSupport[q] == useCase && forall j int :: 0 <= j && j < len(S0) && j != q ==> u.UseCaseSupport[j] == old(S0[j])
+//@   modifies u.UseCaseSupport, u.UseCaseSupport[len(u.UseCaseSupport)], cells(UseCaseSupportType), held
+
+//@ func (*UseCaseInformationDataType).Remove
+//@   requires u != nil
+//@   let S0 = u.UseCaseSupport
+//@   define kept(it) = it.UseCaseName != nil && *it.UseCaseName != useCaseName
+//@   filter F loop 0 src S0 keep kept
+//@   ensures[C20] view: len(u.UseCaseSupport) == Fcnt(len(S0)) && forall j int :: 0 <= j && j < len(S0) && kept(S0[j]) ==> u.UseCaseSupport[Fcnt(j)] == old(S0[j])
+//@   ensures[C20] gone: forall m int :: 0 <= m && m < len(u.UseCaseSupport) ==> !named(u.UseCaseSupport[m], useCaseName)
+//@   modifies u.UseCaseSupport, held
+//@   loop 0 invariant len: len(usecases) == Fcnt($k)
+//@   loop 0 invariant elems: forall j int :: 0 <= j && j < $k && kept($s[j]) ==> usecases[Fcnt(j)] == $s[j]
+//@   loop 0 invariant gone: forall m int :: 0 <= m && m < len(usecases) ==> !named(usecases[m], useCaseName)
+
+//@ func (*NodeManagementUseCaseDataType).useCaseInformationIndex
+//@   requires n != nil
+//@   ensures[C20] found: result1 ==> 0 <= result0 && result0 < len(n.UseCaseInformation) && ucMatch(n.UseCaseInformation[result0], address, actor, useCaseName) && forall j int :: 0 <= j && j < result0 ==> !ucMatch(n.UseCaseInformation[j], address, actor, useCaseName)
+//@   ensures[C20] absent: !result1 ==> result0 == 0 - 1 && forall j int :: 0 <= j && j < len(n.UseCaseInformation) ==> !ucMatch(n.UseCaseInformation[j], address, actor, useCaseName)
+//@   modifies nothing
+//@   loop 0 invariant none-yet: forall j int :: 0 <= j && j < $k ==> !ucMatch($s[j], address, actor, useCaseName)
+
+//@ func (*NodeManagementUseCaseDataType).HasUseCaseSupport
+//@   requires n != nil
+//@   ensures[C20] exact: result <==> exists i int :: 0 <= i && i < len(n.UseCaseInformation) && ucMatch(n.UseCaseInformation[i], address, actor, useCaseName)
+//@   modifies held
+
+//@ func (*NodeManagementUseCaseDataType).RemoveUseCaseDataForAddress
+//@   requires n != nil
+//@   let I0 = n.UseCaseInformation
+//@   define kept(info) = !(info.Address != nil && deepEqual(*info.Address, address))
+//@   filter F loop 0 src I0 keep kept
+//@   ensures[C20] view: len(n.UseCaseInformation) == Fcnt(len(I0)) && forall j int :: 0 <= j && j < len(I0) && kept(I0[j]) ==> n.UseCaseInformation[Fcnt(j)] == old(I0[j])
+//@   modifies n.UseCaseInformation, held
+//@   loop 0 invariant len: len(usecaseInfo) == Fcnt($k)
+//@   loop 0 invariant elems: forall j int :: 0 <= j && j < $k && kept($s[j]) ==> usecaseInfo[Fcnt(j)] == $s[j]
